@@ -4,7 +4,7 @@
                                             state when per_iteration runs, i.e. after the increment), nothing else changes;
      SAC _soft_update_targets             : theta' <- tau*theta + (1-tau)*theta' for both target critics, online critics untouched. *)
 From Coq Require Import Reals List ZArith Bool Lia.
-From Lerax Require Import KBase Schedule.
+From Lerax Require Import KBase Env OnPolicy Schedule.
 From LeraxGen Require Import GenK_C10.
 
 Theorem gen_num_iterations_eq_model total N T :
@@ -64,6 +64,33 @@ Section SacTrain.
   Qed.
 End SacTrain.
 
+(* learn() (base_algorithm.py, with the on-policy num_iterations executed symbolically; reset, iteration and the training-start / -end
+   observers are arbitrary functions): the key is split four ways (start observer, reset, iterations, end observer); the state is reset
+   with the reset key, and iteration is folded over EXACTLY floor(total / (num_envs * num_steps)) keys split from the learn key; the
+   policy of the final state is returned *)
+Section LearnSpec.
+  Context {ST X CB SCB : Type}.
+  Variables (a_reset : kpath -> ST) (a_iter : ST -> kpath -> ST) (st_with_cb : ST -> CB -> ST) (st_cb : ST -> CB) (st_scb : ST -> SCB)
+            (st_pol : ST -> X) (cb_start cb_end : CB -> SCB -> X -> kpath -> CB).
+  Variables (N T total : Z) (k : kpath).
+
+  Definition learn_spec : X :=
+    let s0 := a_reset (ks k 4 1) in
+    let s1 := st_with_cb s0 (cb_start (st_cb s0) (st_scb s0) (st_pol s0) (ks k 4 0)) in
+    let s2 := fold_left a_iter (split_keys (ks k 4 2) (Z.to_nat (num_iterations total N T))) s1 in
+    st_pol (st_with_cb s2 (cb_end (st_cb s2) (st_scb s2) (st_pol s2) (ks k 4 3))).
+
+  Theorem gen_learn_eq_spec :
+    gen_learn_policy a_reset a_iter st_with_cb st_cb st_scb st_pol cb_start cb_end N T total k = learn_spec.
+  Proof. reflexivity. Qed.
+
+  Theorem gen_learn_iteration_count :
+    length (split_keys (ks k 4 2) (Z.to_nat (num_iterations total N T))) = Z.to_nat (total / (N * T)).
+  Proof. unfold split_keys, num_iterations. now rewrite map_length, seq_length. Qed.
+End LearnSpec.
+
+Print Assumptions gen_learn_eq_spec.
+Print Assumptions gen_learn_iteration_count.
 Print Assumptions gen_sactrain_gating.
 Print Assumptions gen_num_iterations_eq_model.
 Print Assumptions gen_dqn_iter_target.
